@@ -16,7 +16,7 @@ from .rules.common import (member_path, strip_casts, calls_in, kind_switches, th
 ENUM_NAMES = set(ALL_KINDS)
 
 
-def _kind_test(e):
+def _kind_test(e, subject=None):
     """(enumerator, is_equal) if e compares a `.kind` / `kind` value with a PyTreeKind enumerator"""
     if e is None or e.kind != 'BinaryOperator' or e.op not in ('==', '!='):
         return None
@@ -30,20 +30,22 @@ def _kind_test(e):
         en, other = lp, rp
     if en is None or other is None or other.split('.')[-1] != 'kind':
         return None
+    if subject is not None and other != subject:
+        return None
     return en, e.op == '=='
 
 
-def eval_kind_cond(e, kind):
+def eval_kind_cond(e, kind, subject=None):
     """truth of a condition under `node.kind == kind`, or None when it does not depend on it alone"""
     v = const_eval(e)
     if v is not None:
         return bool(v)
-    t = _kind_test(e)
+    t = _kind_test(e, subject)
     if t is not None:
         en, eq = t
         return (en == kind) == eq
     if e is not None and e.kind == 'BinaryOperator' and e.op in ('&&', '||'):
-        a, b = eval_kind_cond(e.kids[0], kind), eval_kind_cond(e.kids[1], kind)
+        a, b = eval_kind_cond(e.kids[0], kind, subject), eval_kind_cond(e.kids[1], kind, subject)
         if e.op == '&&':
             if a is False or b is False:
                 return False
@@ -55,21 +57,21 @@ def eval_kind_cond(e, kind):
             if a is False and b is False:
                 return False
     if e is not None and e.kind == 'UnaryOperator' and e.op == '!':
-        a = eval_kind_cond(e.kids[0], kind)
+        a = eval_kind_cond(e.kids[0], kind, subject)
         return None if a is None else (not a)
     return None
 
 
-def specialise_expr(e, kind):
+def specialise_expr(e, kind, subject=None):
     """resolve `kind-test ? a : b` inside an expression"""
     if e is None:
         return None
     if e.kind == 'ConditionalOperator':
-        v = eval_kind_cond(e.kids[0], kind)
+        v = eval_kind_cond(e.kids[0], kind, subject)
         if v is True:
-            return specialise_expr(e.kids[1], kind)
+            return specialise_expr(e.kids[1], kind, subject)
         if v is False:
-            return specialise_expr(e.kids[2], kind)
+            return specialise_expr(e.kids[2], kind, subject)
     return e
 
 
@@ -80,7 +82,8 @@ class Events(list):
 class ArmWalker:
     """Walks the statements of one arm in source order and records events."""
 
-    def __init__(self, prog, func, kind, self_names):
+    def __init__(self, prog, func, kind, self_names, subject=None):
+        self.subject = subject
         self.prog = prog
         self.func = func
         self.kind = kind
@@ -92,7 +95,7 @@ class ArmWalker:
 
     # -- classification of container expressions ------------------------------------------------
     def cls_of(self, e, depth=0):
-        e = specialise_expr(strip_casts(e), self.kind)
+        e = specialise_expr(strip_casts(e), self.kind, self.subject)
         if e is None or depth > 6:
             return 'UNKNOWN'
         if e.kind in CTOR_KINDS and len(e.kids) == 1:
@@ -187,7 +190,7 @@ class ArmWalker:
                 self.stmt(kids.pop(0))
             cond, then = kids[0], (kids[1] if len(kids) > 1 else None)
             els = kids[2] if len(kids) > 2 else None
-            v = eval_kind_cond(cond, self.kind)
+            v = eval_kind_cond(cond, self.kind, self.subject)
             if v is True:
                 self.stmt(then)
             elif v is False:
@@ -201,6 +204,8 @@ class ArmWalker:
                     th = [t for t in br.walk() if t.kind == 'CXXThrowExpr']
                     if th and _only_throws(br):
                         self.events.append(('validate', norm_cond(cond, pol, self), thrown_type(th[0]), s))
+                    elif _only_returns_false(br):
+                        self.events.append(('validate', norm_cond(cond, pol, self), 'return-false', s))
                     else:
                         self.guards.append((norm_cond(cond, pol, self), cond, pol))
                         self.stmt(br)
@@ -258,14 +263,14 @@ class ArmWalker:
         init = v.kids[-1] if v.kids else None
         if init is None:
             return
-        init = specialise_expr(init, self.kind)
+        init = specialise_expr(init, self.kind, self.subject)
         c = self.cls_of(init)
         self.alias[v.name] = c
         self.expr(init, target=('local', v.name))
 
     def expr(self, e, target=None):
         """record the events of one full expression"""
-        e = specialise_expr(e, self.kind)
+        e = specialise_expr(e, self.kind, self.subject)
         if e is None:
             return
         # assignments
@@ -275,7 +280,7 @@ class ArmWalker:
         elif e.kind == 'CXXOperatorCallExpr' and e.callee_name() == 'operator=' and len(e.kids) == 3:
             lhs, rhs = e.kids[1], e.kids[2]
         if lhs is not None:
-            rhs = specialise_expr(rhs, self.kind)
+            rhs = specialise_expr(rhs, self.kind, self.subject)
             p = member_path(lhs) or ''
             last = p.split('.')[-1]
             c = self.cls_of(rhs)
@@ -394,6 +399,13 @@ def _only_throws(br):
         else:
             return body[-1].kind == 'CXXThrowExpr'
     return s is not None and s.kind == 'CXXThrowExpr'
+
+
+def _only_returns_false(br):
+    s = br
+    while s is not None and s.kind == 'CompoundStmt' and len([k for k in s.kids if k is not None]) == 1:
+        s = [k for k in s.kids if k is not None][0]
+    return s is not None and s.kind == 'ReturnStmt' and bool(s.kids) and const_eval(s.kids[0]) is False
 
 
 def _post_calls(e):
@@ -622,7 +634,16 @@ def self_names_of(func):
     return names
 
 
-def arm_descriptors(prog, func, switch_index=0):
+def _prelude(func, sw):
+    """statements that precede the switch in its enclosing block (same activation)"""
+    for comp in func.body.find('CompoundStmt'):
+        for i, k in enumerate(comp.kids):
+            if k is sw:
+                return [x for x in comp.kids[:i] if x is not None]
+    return []
+
+
+def arm_descriptors(prog, func, switch_index=0, with_prelude=False):
     """kind -> Descriptor for the `switch_index`-th PyTreeKind switch of func"""
     sws = kind_switches(func)
     if len(sws) <= switch_index:
@@ -630,10 +651,18 @@ def arm_descriptors(prog, func, switch_index=0):
     arms, groups = switch_arms(sws[switch_index])
     out = {}
     sn = self_names_of(func)
+    pre = _prelude(func, sws[switch_index]) if with_prelude else []
+    sw = sws[switch_index]
+    cond = None
+    for k in sw.kids[:-1]:
+        if k is not None:
+            cond = k
+    subject = member_path(cond)
     for kind, stmts in arms.items():
         if kind == 'default' or kind not in ENUM_NAMES:
             continue
-        w = ArmWalker(prog, func, kind, sn)
+        w = ArmWalker(prog, func, kind, sn, subject)
+        w.walk(pre)
         w.walk(stmts)
         out[kind] = Descriptor(func, kind, w.events, w)
     return out
